@@ -1084,7 +1084,9 @@ def incrQueriesSpec (s : QSState) (line ans : String) : QSState × String :=
   | _ => (s, "skip")
 
 /-! ## Engine `incr_diag` (C36, executor clause): the diagnostics a compilation reports are the
-same ordered list for repeated runs on one executor and for every parallelism.
+same ordered list for repeated runs on one executor, for every parallelism and for every forced
+lowering order (queries.IR run for the files one by one, in a given permutation, on a fresh
+executor and session before the Link/FDS queries).
 
 The model does not predict diagnostics: `diag` answers `ran`; what the harness observed follows
 ` ~ ` and is judged by the oracle only. -/
@@ -1096,6 +1098,37 @@ def incrDiagStep (u : Unit) (line : String) : Unit × String :=
   | ["put", i, imps, v] => (u, if okNat i && (parseInts imps).isSome && okNat v then "ok" else "bad-op")
   | ["putx", i, imps, errs] =>
     (u, if okNat i && (parseInts imps).isSome && (errs == "-" || errs.toList.all (fun c => "lsudtnm".toList.contains c)) then "ok" else "bad-op")
+  | ["putd", i, imps, pkg, decls] =>
+    -- a proto2 file built from declarations M<Name>[:members] / X<Name> / E<Ref>:<field>=<num>
+    let identOk (t : String) : Bool := match t.toList with
+      | [] => false
+      | c :: cs => c.isAlpha && cs.all (fun d => d.isAlphanum || d == '_')
+    let lowerOk (t : String) : Bool := match t.toList with
+      | [] => false
+      | c :: cs => c.isLower && cs.all (fun d => d.isLower || d.isDigit || d == '_')
+    let refOk (t : String) : Bool := (t.splitOn ".").all identOk
+    let declOk (d : String) : Bool :=
+      match d.toList with
+      | k :: rest =>
+        let body := String.ofList rest
+        (match k, body.splitOn ":" with
+        | 'M', [n] => identOk n
+        | 'M', [n, ms] => identOk n && (ms.splitOn ",").all identOk
+        | 'X', [n] => identOk n
+        | 'E', [x, fn] => (match fn.splitOn "=" with
+          | [f, num] => refOk x && identOk f && (match num.toNat? with
+            | some v => v ≥ 1 && v ≤ 536870911
+            | none => false)
+          | _ => false)
+        | _, _ => false)
+      | [] => false
+    let impsOk := match parseInts imps with
+      | some l => l.all (· ≥ 1)
+      | none => false
+    let iOk := match i.toNat? with
+      | some v => v ≥ 1
+      | none => false
+    (u, if iOk && impsOk && (pkg == "-" || (pkg.splitOn ".").all lowerOk) && (decls.splitOn ";").all declOk then "ok" else "bad-op")
   | ["del", i] => (u, if okNat i then "ok" else "bad-op")
   | "evict" :: is => (u, if is.all okNat then "ok" else "bad-op")
   | ["diag", ws, reps] => match parseInts ws, reps.toNat? with
@@ -1108,11 +1141,17 @@ def incrDiagSpec (u : Unit) (line ans : String) : Unit × String :=
   | ["diag", _, _] =>
     match ans.splitOn " ~ " with
     | [_, obs] =>
+      -- a difference the harness could attribute carries ` cause=<name> `; it is part of the verdict class
+      let cause : String := match obs.splitOn " cause=" with
+        | _ :: c :: _ => " cause=" ++ ((c.splitOn " ").headD "")
+        | _ => ""
       if obs.startsWith "same " then (u, "holds")
-      else if obs.startsWith "differ:runs" then (u, s!"fails diagnostics-differ-between-runs [{obs}]")
-      else if obs.startsWith "differ:parallelism" then (u, s!"fails diagnostics-differ-between-parallelism [{obs}]")
+      else if obs.startsWith "differ:runs" then (u, s!"fails diagnostics-differ-between-runs{cause} [{obs}]")
+      else if obs.startsWith "differ:parallelism" then (u, s!"fails diagnostics-differ-between-parallelism{cause} [{obs}]")
+      else if obs.startsWith "differ:lowering-order" then (u, s!"fails diagnostics-differ-between-lowering-orders{cause} [{obs}]")
       else if obs.startsWith "tieorder:runs" then (u, s!"fails diagnostics-order-of-key-ties-differs-between-runs [{obs}]")
       else if obs.startsWith "tieorder:parallelism" then (u, s!"fails diagnostics-order-of-key-ties-differs-between-parallelism [{obs}]")
+      else if obs.startsWith "tieorder:lowering-order" then (u, s!"fails diagnostics-order-of-key-ties-differs-between-lowering-orders [{obs}]")
       else (u, s!"fails compilation-did-not-return [{obs}]")
     | _ => (u, s!"fails compilation-did-not-return [{ans}]")
   | _ => (u, "skip")
